@@ -681,7 +681,7 @@ Section LdaProofs.
   Definition inner_ok (n : nat) A : Prop :=
     forall adj : bool, solve_fn_ok n (if adj then mH A else A) (inner A adj).
 
-  Definition state_inv (st : state) : Prop :=
+  Definition state_inv (st : @state F) : Prop :=
     match s_A st with
     | None => True
     | Some (c, A) =>
@@ -782,7 +782,7 @@ Section LdaProofs.
   Qed.
 
   (* ================================================================ histories *)
-  Definition op_ok (st : state) (o : op) : Prop :=
+  Definition op_ok (st : @state F) (o : @op F) : Prop :=
     match o with
     | Update c A => wfm (length A) A /\ inner_ok (length A) A /\ (c = false -> mconj A = A) /\
                     (s_sym st = Some true -> mtrans A = A) /\ (s_herm st = Some true -> mH A = A)
@@ -790,12 +790,12 @@ Section LdaProofs.
         trans_valid t = true /\
         match s_A st with Some (_, A) => Forall (fun r => length r = length A) RHS | None => False end
     end.
-  Fixpoint hist_ok (st : state) (ops : list op) : Prop :=
+  Fixpoint hist_ok (st : @state F) (ops : list (@op F)) : Prop :=
     match ops with
     | [] => True
     | o :: ops' => op_ok st o /\ hist_ok (fst (step inner st o)) ops'
     end.
-  Definition answer_ok (st : state) (o : op) : Prop :=
+  Definition answer_ok (st : @state F) (o : @op F) : Prop :=
     match o with
     | Update _ _ => True
     | Solve crhs isvec RHS X0 t =>
@@ -805,7 +805,7 @@ Section LdaProofs.
         | None => False
         end
     end.
-  Fixpoint answers_ok (st : state) (ops : list op) : Prop :=
+  Fixpoint answers_ok (st : @state F) (ops : list (@op F)) : Prop :=
     match ops with
     | [] => True
     | o :: ops' => answer_ok st o /\ answers_ok (fst (step inner st o)) ops'
